@@ -65,7 +65,11 @@ def timekeeper_init_replay(p):
     """Direction check / attributes of __init__ for one (start, stop, dt, reversal)."""
     try:
         tk = _mk(p["start"], p["stop"], p["dt"], p["rev"], p.get("ref"))
-    except SystemExit:
+    except BaseException as e:  # noqa: BLE001
+        from .refusal import deliberate
+
+        if not deliberate(e):
+            raise
         expected_exit = bool(p["rev"]) != (p["stop"] < p["start"])
         return dict(reproduced=not expected_exit, observed="SystemExit", expected="SystemExit" if expected_exit else "normal return")
     sg = -1 if p["rev"] else 1
@@ -99,8 +103,11 @@ def timekeeper_bounded(p):
                 try:
                     _mk(start, stop, dt, not rev, ref)
                     failures.append(dict(start=start, stop=stop, dt=dt, rev=not rev, clause="wrong direction accepted"))
-                except SystemExit:
-                    pass
+                except BaseException as e:  # noqa: BLE001
+                    from .refusal import deliberate
+
+                    if not deliberate(e):
+                        failures.append(dict(start=start, stop=stop, dt=dt, rev=not rev, clause=f"wrong direction: crashed with {type(e).__name__} instead of refusing"))
     samples.append(dict(start=lat[1], stop=lat[3], dt=dts[1], clauses="clock, nctime, step2time/time2step inverse, step2isotime, step2nctime s/m/h, cf_units"))
     # period spellings
     vals = [0, 1, 9, 10, 59, 60, 99, 100, 999, 1000, 86399, 86400, 10**5, 10**6]
